@@ -117,8 +117,8 @@ class SingleShooting(SamplingMethod):
                 for c, meta, args in stage._constraints["integrator"]:
                     if k==0 and l==0 and not args["include_first"]: continue
                     opti.subject_to(self.eval_at_integrator(stage, c, k, l), scale=args["scale"], meta=meta)
-                for c, meta, _ in stage._constraints["inf"]:
-                    self.add_inf_constraints(stage, opti, c, k, l, meta)
+                for c, meta, args in stage._constraints["inf"]:
+                    self.add_inf_constraints(stage, opti, c, k, l, meta, scale=args["scale"])
 
             for c, meta, args in stage._constraints["control"]:  # for each constraint expression
                 if k==0 and not args["include_first"]: continue
